@@ -64,12 +64,15 @@ var c07Queries = []string{
 	`{ n(x: {b: "s", e: V1}, z: V1) e }`,
 	`{ n(x: {b: "u", e: V0}, z: V2) e }`,
 	`mutation { set(x: 1) o { i { a } } }`,
+	// abstract types with exactly one possible type (J: only O implements it; U1: one member) below other abstract fields
+	`{ ul { ... on O { j { a ... on O { x(y: 3) } } u1 { ... on P { p } } } ... on P { u1 { ... on P { e u1 { ... on P { p } } } } } } }`,
+	`{ i { a ... on O { j { a } u1 { ... on P { p e } } } ... on P { u1 { ... on P { p } } } } j { a ... on O { u { ... on P { u1 { ... on P { e } } } } } } }`,
 	`{ nope }`,
 	`{ n(z: NOPE) }`,
 }
 
 // sharedPlanQuery is the document behind the shared prepared plan.
-const sharedPlanQuery = `query($s: Boolean = false, $t: Boolean = true) { e @skip(if: $s) i { a ... on O { x(y: 2) @include(if: $t) u { ... on P { e } } } ... on P { p e @skip(if: $s) } } ul { ... on O { a } ... on P { p @include(if: $t) } } n(x: {b: "p"}, z: V2) }`
+const sharedPlanQuery = `query($s: Boolean = false, $t: Boolean = true) { e @skip(if: $s) i { a ... on O { x(y: 2) @include(if: $t) u { ... on P { e } } } ... on P { p e @skip(if: $s) } } ul { ... on O { a j { a @include(if: $t) } } ... on P { p @include(if: $t) u1 { ... on P { e } } } } n(x: {b: "p"}, z: V2) }`
 
 // c07Model is the kitchen schema with one covariant interface implementation (P.i: P where
 // the interface says I): checking it makes NewSchema fill the possible-type table for I, the
@@ -83,6 +86,22 @@ func c07Model() *model.Schema {
 					f.Type = model.T("P")
 				}
 			}
+		}
+	}
+	// abstract types with exactly one possible type, reachable below other abstract fields: interface J implemented
+	// by O only, union U1 with the single member P
+	m.Types = append(m.Types,
+		&model.TypeDef{Kind: model.KIface, Name: "J", HasResolveType: true, Fields: []*model.FieldDef{{Name: "a", Type: model.T("String")}}},
+		&model.TypeDef{Kind: model.KUnion, Name: "U1", Members: []string{"P"}, HasResolveType: true})
+	for _, td := range m.Types {
+		switch td.Name {
+		case "O":
+			td.Interfaces = append(td.Interfaces, "J")
+			td.Fields = append(td.Fields, &model.FieldDef{Name: "j", Type: model.T("J")}, &model.FieldDef{Name: "u1", Type: model.T("U1")})
+		case "P":
+			td.Fields = append(td.Fields, &model.FieldDef{Name: "u1", Type: model.T("U1")})
+		case "Q":
+			td.Fields = append(td.Fields, &model.FieldDef{Name: "j", Type: model.T("J")})
 		}
 	}
 	return m
@@ -196,7 +215,8 @@ func c07Oracle(c *ConcCase) (msg string, overlapped bool) {
 	select {
 	case <-done:
 	case <-time.After(120 * time.Second):
-		return "goroutines did not finish within 120 s (deadlock?)", true
+		// the blocked goroutines stay blocked (and may hold locks of shared state): report and stop this process at once
+		fatalViolation("C07", "concurrent", c, "goroutines did not finish within 120 s: %d of %d operations returned (deadlock)", atomic.LoadInt64(&finished), atomic.LoadInt64(&started))
 	}
 	if p, _ := panics.Load().(string); p != "" {
 		return p, true
